@@ -115,4 +115,10 @@ example : regress [((0 : ℚ), 10, 1), (1, 12, 1 / 2), (3, 16, 1 / 5)] = (10, 2)
   · intro d hd; simp at hd; rcases hd with rfl | rfl | rfl <;> norm_num
   · simp [det, sW, sWB, sWBB]; norm_num
 
+/-- The fit the driver evaluates at `Float` to cross-check the implementation's `numpy.linalg`
+results (about the first data point, so that no digits are lost to the size of the blow index or of
+the epoch) is the same function as the `regress` of the theorems above. -/
+theorem centred_evaluation_is_the_same_fit (ds : List (K × K × K)) (hd : det ds ≠ 0) :
+    regressCentred ds = regress ds := regressCentred_eq ds hd
+
 end Wheatley.C12
